@@ -1231,7 +1231,8 @@ int QSexact_basis_dualstatus(
 	mpq_ILLfct_compute_dz (p_mpq->lp);
 	mpq_ILLfct_compute_dobj(p_mpq->lp); 
 	mpq_ILLfct_check_dfeasible (p_mpq->lp, &fi, mpq_zeroLpNum);
-	mpq_ILLfct_set_status_values (p_mpq->lp, fi.pstatus, fi.dstatus, PHASEII, PHASEII);
+	/* only the dual side was looked at: fi.pstatus has no value here */
+	mpq_ILLfct_set_status_values (p_mpq->lp, -1, fi.dstatus, -1, PHASEII);
 
 	if( p_mpq->lp->basisstat.dual_feasible )
 	{
